@@ -198,6 +198,35 @@ class OMachine(Machine):
         a, b = l.i, r.i
         return int({'==': a == b and l.vec is r.vec, '!=': not (a == b and l.vec is r.vec), '<': a < b, '>': a > b, '<=': a <= b, '>=': a >= b}[op])
 
+    # ---------------------------------------------------------------- scopes: destructors of local objects (RAII guards)
+    def exec(self, s):
+        k = s['k']
+        if k == 'Compound' and getattr(self.world, 'destructor', None) is not None:
+            if not hasattr(self, '_raii'):
+                self._raii = []
+            mark = len(self._raii)
+            try:
+                for c in s['c']:
+                    self.exec(c)
+            finally:
+                for o in reversed(self._raii[mark:]):
+                    body = self.world.destructor(o)
+                    if body is not None:
+                        self.run_body(body, [], o)
+                del self._raii[mark:]
+            return
+        if k == 'Decl' and getattr(self.world, 'destructor', None) is not None:
+            for v in s['vars']:
+                if v.get('init') is not None:
+                    val = self.ev(v['init'])
+                    self.env[v['id']] = val
+                    if isinstance(val, Obj) and not (v.get('ty') or '').rstrip().endswith(('&', '*')) and self.world.destructor(val) is not None:
+                        if not hasattr(self, '_raii'):
+                            self._raii = []
+                        self._raii.append(val)
+            return
+        return super().exec(s)
+
     # ---------------------------------------------------------------- stores
     def assign(self, t, v):
         k = t.get('k')
@@ -436,6 +465,29 @@ class OMachine(Machine):
             body = w.facts.ast(c['usr'])
             if body is not None and body.get('body') is not None and w.allow(body, c):
                 return self.run_body(body, [self.ev(x) for x in c.get('args', [])], None, c)
+        if k == 'Ctor' and c.get('usr'):
+            body = w.facts.ast(c['usr'])
+            if body is not None and body.get('body') is not None and body.get('inits') is not None and w.allow(body, c) and getattr(w, 'construct_objects', False):
+                return self.construct(body, c)
         if k == 'Ctor' and len(c.get('args', [])) == 1:
             return self.ev(c['args'][0])
         return NotImplemented
+
+    def construct(self, body, c):
+        """run a constructor: member initialisers, then the body, on a fresh object"""
+        args = [self.ev(x) for x in c.get('args', [])]
+        if len(args) == 1 and isinstance(args[0], Obj) and args[0].cls == (c.get('cls') or ''):
+            o = Obj(args[0].cls, dict(args[0].fields))       # copy construction
+            return o
+        o = Obj(c.get('cls') or '?', {})
+        env = {p['id']: v for p, v in zip(body['params'], args)}
+        sub = type(self)(self.world, env, o)
+        sub.fuel = getattr(self, 'fuel', 20000)
+        for ini in body.get('inits') or []:
+            if ini.get('field') and ini.get('e') is not None:
+                try:
+                    o.fields[ini['field']] = sub.ev(ini['e'])
+                except Unsupported:
+                    o.fields[ini['field']] = None
+        sub.call(body['body'])
+        return o
